@@ -445,6 +445,59 @@ theorem save_leaves_current_file (env : Env P N V) (htt : env.tgt ≠ env.tmp) (
   rw [hs] at hraised ⊢
   exact doSave_current env ps htt hc w.fs w.ms f hgood hraised
 
+/-- The automatic save stays hooked to the parameter: after start-up and any history - I/O faults in any of the saves,
+automatic ones included, whose exceptions `announceUpdate` swallows - `saveParameters` is registered for exactly the
+parameters with `persistent='auto'`. -/
+theorem auto_save_stays_registered (env : Env P N V) (ps : List (Param V)) (wd0 : List (String × V)) (fs0 : FS P)
+    (f0 : Option Fault) (hist : List (Act V × Option Fault)) :
+    let o := startUp env ps wd0 (fs0 env.tgt) f0
+    let w := World.run env ⟨o.ms, applyEvs fs0 o.evs⟩ hist
+    w.ms.hooks = autoNames ps := by
+  intro o w
+  show (World.run env ⟨o.ms, applyEvs fs0 o.evs⟩ hist).ms.hooks = autoNames ps
+  rw [world_run_hooks]
+  exact startUp_hooks env ps wd0 _ f0
+
+/-- "a save that failed is attempted again by the next save", for the automatic saves: in any state reached from start-up
+by any history (so after any number of automatic or explicit saves that failed at any operation), an undisturbed update
+of a parameter with `persistent='auto'`, while no write is pending, leaves a file that reads back as the current values,
+the new one included (or as something Python-`==` to them: then nothing had to be written). -/
+theorem failed_auto_save_retried (env : Env P N V) (htt : env.tgt ≠ env.tmp) (ps : List (Param V))
+    (wd0 : List (String × V)) (fs0 : FS P) (f0 : Option Fault) (hist : List (Act V × Option Fault))
+    (hc : Codec env ps) (p : Param V) (hp : p ∈ ps) (hpers : p.persistent = true) (hauto : p.auto = true) (v : V) :
+    let o := startUp env ps wd0 (fs0 env.tgt) f0
+    let w := World.run env ⟨o.ms, applyEvs fs0 o.evs⟩ hist
+    let s := act env w.ms (w.fs env.tgt) (.set p.name v) none
+    w.ms.writeDict = [] →
+      s.ms.params = setValue w.ms.params p.name v ∧
+      (loadRaw env.parse (applyEvs w.fs s.evs env.tgt) = exportAll env s.ms.params ∨
+       env.same (exportAll env s.ms.params) (loadRaw env.parse (applyEvs w.fs s.evs env.tgt)) = true) := by
+  intro o w s hwd
+  have hgood : Good env ps w.fs w.ms :=
+    world_run_good env ps htt hc hist _ (startUp_good env ps htt hc wd0 fs0 f0)
+  have hhooks : w.ms.hooks = autoNames ps := auto_save_stays_registered env ps wd0 fs0 f0 hist
+  have hnames : w.ms.params.map (·.name) = ps.map (·.name) := by
+    show (World.run env ⟨o.ms, applyEvs fs0 o.evs⟩ hist).ms.params.map (·.name) = ps.map (·.name)
+    rw [world_run_names]
+    exact startUp_names env ps wd0 _ f0
+  have hsome : (findParam w.ms.params p.name).isSome = true :=
+    findParam_isSome _ _ (by rw [hnames]; exact List.mem_map.mpr ⟨p, hp, rfl⟩)
+  obtain ⟨q, hq⟩ := Option.isSome_iff_exists.mp hsome
+  have hcont : w.ms.hooks.contains p.name = true := by rw [hhooks]; exact mem_autoNames hp hpers hauto
+  have h1 : Good env ps w.fs { w.ms with params := setValue w.ms.params p.name v } :=
+    ⟨hgood.disk, hgood.shape.trans (setValue_shape _ _ _)⟩
+  have hs : s.evs = (doSave env { w.ms with params := setValue w.ms.params p.name v } none).evs ∧
+      s.ms.params = setValue w.ms.params p.name v := by
+    have hmem : p.name ∈ w.ms.hooks := by simpa using hcont
+    simp [s, act, announce, hq, hmem, saveParameters, hwd, doSave]
+  have hraised : (doSave env { w.ms with params := setValue w.ms.params p.name v } none).raised = false := by
+    simp only [doSave, saveStep]
+    split
+    · rfl
+    · exact (saveRun_none env.tgt env.tmp _).2.2
+  rw [hs.1, hs.2]
+  exact ⟨rfl, doSave_current env ps htt hc w.fs _ none h1 hraised⟩
+
 /-- The reload that follows start-up directly (the first poll finds the hardware power-cycled).  Whatever the file of
 the earlier run held and whatever the configuration gives now, a start-up that returned normally followed by
 `loadParameters()` (with or without an I/O fault in the save it triggers) leaves every persistent parameter with the
@@ -672,7 +725,7 @@ example :
 /-- `reload_restores` on two non-trivial states: the file holds a = 9: restored (through the write method); the file
 holds a = 200, which the write method refuses: the parameter keeps 5 (and the module goes on) -/
 example :
-    let ms : MState Nat Nat := ⟨exParams, [("b", 1)], [], []⟩
+    let ms : MState Nat Nat := ⟨exParams, [("b", 1)], [], [], []⟩
     valueOf (loadParameters exEnv ms (some (List.replicate 9 1)) none).ms.params "a" = some 9 ∧
     valueOf (loadParameters exEnv ms (some (List.replicate 200 1)) (some ⟨2, [], []⟩)).ms.params "a" = some 5 ∧
     (loadParameters exEnv ms (some (List.replicate 9 1)) none).writes = [("a", 9)] := by
@@ -727,11 +780,43 @@ example :
 example (held : String → List Nat) (hist : List (Act Nat × Option Fault)) (fs0 : FS Nat) :
     ReloadRestores exEnv.parse exEnv.imp exEnv.wval (some (List.replicate 9 1))
       (exParams.map (fun p => ⟨p.name, p.persistent, p.hasWrite, p.value, held p.name,
-        (valueOf (loadParameters exEnv ⟨exParams, [("b", 1)], [], []⟩ (some (List.replicate 9 1)) none).ms.params p.name).getD p.value⟩)) ∧
+        (valueOf (loadParameters exEnv ⟨exParams, [("b", 1)], [], [], []⟩ (some (List.replicate 9 1)) none).ms.params p.name).getD p.value⟩)) ∧
     (let o := startUp exEnv exParams [("a", 5)] (fs0 exEnv.tgt) (some ⟨3, [], []⟩)
      let w := World.run exEnv ⟨o.ms, applyEvs fs0 o.evs⟩ hist
      loadRaw exEnv.parse (w.fs exEnv.tgt) = w.ms.believed) :=
-  ⟨reload_restores exEnv ⟨exParams, [("b", 1)], [], []⟩ _ none held exLaws.2.1 exLaws.2.2.1 exLaws.2.2.2.1,
+  ⟨reload_restores exEnv ⟨exParams, [("b", 1)], [], [], []⟩ _ none held exLaws.2.1 exLaws.2.2.1 exLaws.2.2.2.1,
    believed_on_disk_world exEnv exLaws.1 exParams [("a", 5)] fs0 (some ⟨3, [], []⟩) hist exCodec⟩
+
+/-- `auto_save_stays_registered` / `failed_auto_save_retried` on a non-trivial history: "a" is saved automatically.  The
+automatic save of a := 9 fails at the rename (operation 3 of 5): the file keeps 5, the exception is swallowed, nobody
+calls `saveParameters()`.  The callback is still registered, and the next change (a := 11) performs the five operations
+again and leaves the file that reads back 11 - obtained from the theorem, whose hypotheses all hold. -/
+example :
+    let fs0 : FS Nat := fun _ => none
+    let o := startUp exEnv exAuto [] (fs0 exEnv.tgt) none
+    let w := World.run exEnv ⟨o.ms, applyEvs fs0 o.evs⟩ [(.set "a" 9, some ⟨3, [], []⟩)]
+    let s := act exEnv w.ms (w.fs exEnv.tgt) (.set "a" 11) none
+    w.ms.writeDict = [] ∧ w.fs 0 = some (List.replicate 5 1) ∧ w.fs 1 = none ∧ valueOf w.ms.params "a" = some 9 ∧
+    w.ms.hooks = ["a"] ∧ s.evs.length = 5 ∧ applyEvs w.fs s.evs 0 = some (List.replicate 11 1) ∧
+    loadRaw exEnv.parse (applyEvs w.fs s.evs exEnv.tgt) = exportAll exEnv s.ms.params := by
+  refine ⟨by decide +kernel, by decide +kernel, by decide +kernel, by decide +kernel, ?_, by decide +kernel,
+    by decide +kernel, ?_⟩
+  · exact auto_save_stays_registered exEnv exAuto [] (fun _ => none) none [(.set "a" 9, some ⟨3, [], []⟩)]
+  · have h := (failed_auto_save_retried exEnv exLaws.1 exAuto [] (fun _ => none) none [(.set "a" 9, some ⟨3, [], []⟩)]
+      exAutoCodec ⟨"a", true, true, false, false, false, 5⟩ (by simp [exAuto]) rfl rfl 11 (by decide +kernel)).2
+    rcases h with h | h
+    · exact h
+    · simp [exEnv] at h
+
+/-- a failing write after which the file object, closed on the way out, writes once more what it still holds (`after`):
+the events are those of `failedWrite`, the target is untouched at every crash point, the temporary file is gone -/
+example :
+    let fs : FS Nat := fun p => if p = 0 then some [9] else none
+    let r := saveRun (P := Nat) 0 1 [[2, 3], [4]] (some ⟨1, [2], [[2, 3], [4]]⟩)
+    r.evs.length = 6 ∧ r.raised = true ∧ CrashSafe fs 0 [2, 3, 4] r.evs ∧ FaultSafe fs 0 1 [2, 3, 4] r.evs ∧
+    applyEvs fs (r.evs.take 4) 1 = some [2, 2, 3, 4] := by
+  refine ⟨by decide +kernel, by decide +kernel, ?_, ?_, by decide +kernel⟩
+  · exact crash_atomic 0 1 (by decide) [2, 3, 4] [[2, 3], [4]] rfl _ _
+  · exact fault_atomic 0 1 (by decide) [2, 3, 4] [[2, 3], [4]] rfl _ _
 
 end Frappy.Props.C17
